@@ -172,6 +172,8 @@ def run(res, tier, native_validate):
        "accepted object = accepted type ':' accepted id, neither containing ':'")
     ob("userset-splits", inter(US, "(re.comp %s)" % cat(inter(T, NC, NH), ch(":"), inter(ID, NC, NH), ch("#"), inter(R, NH, NC))), "unsat",
        "accepted userset = type ':' id '#' relation with exactly one ':' and one '#'")
+    ob("userset-object-part-is-an-accepted-object", inter(US, "(re.comp %s)" % cat(O, ch("#"), "re.all")), "unsat",
+       "the part of an accepted userset in front of '#' is an accepted object (so the object length limit holds for usersets too)")
     ob("user-subset-of-union", inter(U, "(re.comp %s)" % union(US, O, UW)), "unsat", "user accepts only usersets, objects, typed wildcards")
     ob("union-subset-of-user", inter(union(US, O, UW), "(re.comp %s)" % U), "unsat", "user accepts every userset, object, typed wildcard")
     ob("userset-object-disjoint", inter(US, O), "unsat", "exactly one of the three kinds")
